@@ -48,6 +48,24 @@ def shadow_manifest():
     corpusgen.write_if_changed(os.path.join(GEN, "shadow", "Cargo.toml"), s)
 
 
+def build_clock_shim():
+    """the clock seam of the cross-process stage: an LD_PRELOAD library shifting every libc clock"""
+    src = os.path.join(SIM, "clockskew", "clockskew.c")
+    out = os.path.join(GEN, "clockskew", "libclockskew.so")
+    os.makedirs(os.path.dirname(out), exist_ok=True)
+    if os.path.exists(out) and os.path.getmtime(out) >= os.path.getmtime(src):
+        return out
+    for cc in ("cc", "gcc", "clang"):
+        try:
+            p = subprocess.run([cc, "-shared", "-fPIC", "-O1", "-o", out, src, "-ldl"], stdout=subprocess.PIPE,
+                               stderr=subprocess.PIPE, text=True)
+        except FileNotFoundError:
+            continue
+        if p.returncode == 0:
+            return out
+    return ""
+
+
 def build():
     shadow_manifest()
     cdir = os.path.join(GEN, "expsim")
@@ -239,10 +257,12 @@ def check(tier, seed):
     fcntl.flock(lockf, fcntl.LOCK_EX)
     exe = build()
     so = build_hooked_proc_macro()
+    shim = build_clock_shim()
     fcntl.flock(lockf, fcntl.LOCK_SH)
     out_path = os.path.join(GEN, "expsim.out.%d.json" % os.getpid())
     p = subprocess.run([exe, "run", "--seed", str(seed), "--runs", str(cfg["runs"]), "--workers", str(JOBS),
-                        "--huge", "1" if cfg["huge"] else "0", "--out", out_path], env=ENV,
+                        "--huge", "1" if cfg["huge"] else "0", "--out", out_path],
+                       env=dict(ENV, EXPSIM_CLOCKSKEW_LIB=shim),
                        stdout=subprocess.PIPE, stderr=subprocess.PIPE, text=True)
     if p.returncode not in (0, 1):
         harness_error("expsim died rc=%s: %s" % (p.returncode, p.stderr[-1500:]))
@@ -261,7 +281,7 @@ def check(tier, seed):
         body = dict(v, property="C17", engine="expsim", seed=seed, tier=tier)
         path = write_replay(body)
         lines.append("VIOLATION property=C17 replay=%s" % path)
-        lines.append("  same declaration, different expansion text (%s vs %s): %s"
+        lines.append("  same declaration, different expansion (%s vs %s): %s"
                      % (v["expected_class"], v["observed_class"], v["first_difference"][:400]))
     real_cov = None
     if nviol == 0:
@@ -299,6 +319,11 @@ def check(tier, seed):
         "distinct_placements_of_observed_declaration": data["distinct_placements_of_observed"],
         "simulated_threads_per_run_histogram": data["threads_hist"],
         "largest_declaration_variants": data["max_variants"],
+        "process_model": data["process_model"],
+        "cross_process_runs": {"count": data["cross_process_runs"], "clock_shim": data["clock_shim"],
+                               "what": "every 4th history re-executed in a second fresh process with shifted wall clock "
+                                       "(LD_PRELOAD shim), other working directory and a cleared, re-drawn environment; "
+                                       "expansions must be identical across the two processes"},
         "event_log_digest": data["digest"],
         "expsim_real": real_cov,
         "real_vs_stub": {
@@ -312,6 +337,8 @@ def check(tier, seed):
     }
     assumptions = [
         "sampling, not proof: histories <= 41 invocations, <= 3 threads, 5 hashing strategies x 64-bit keys",
+        "per-process state other than the hash schedule is perturbed only in the cross-process stage: wall clock "
+        "(through libc), cwd, environment; pid and address-space layout differ between any two processes anyway",
         "the induced-order reach measure assumes the values map is the map created after the feature map and one "
         "parameter map per feature entry (true on the unchanged tree); it is a measure only, not part of the oracle",
         "uncontrolled RandomState runs are not used to decide anything",
@@ -365,12 +392,14 @@ def replay(body, path):
         sys.exit(0)
     hist = os.path.join(GEN, "expsim.replay.%d.txt" % os.getpid())
     with open(hist, "w") as f:
+        if body.get("perturbation"):
+            f.write(body["perturbation"] + "\n")
         for inv in body["history"]:
             f.write("%d\t%s\t%s\t%s\t%s\n" % (inv["thread"], inv["strategy"], inv["hseed"],
                                              "-" if inv["decl"] is None else inv["decl"],
                                              inv["src"].replace("\\", "\\\\").replace("\n", "\\n")))
-    p = subprocess.run([exe, "replay", "--file", hist], env=ENV, stdout=subprocess.PIPE, stderr=subprocess.PIPE,
-                       text=True)
+    p = subprocess.run([exe, "replay", "--file", hist], env=dict(ENV, EXPSIM_CLOCKSKEW_LIB=build_clock_shim()),
+                       stdout=subprocess.PIPE, stderr=subprocess.PIPE, text=True)
     os.remove(hist)
     log(p.stdout.rstrip())
     if p.returncode == 1:
